@@ -110,16 +110,23 @@ def run(ck):
         ck.coqchk(["Verif.Props.C08"])
 
     cases = J.run_harness(ck, "c08", n)
+    shrunk = set()
     for c in cases:
         data = bytes.fromhex(c["in"])
         ck.count(c["stream"] + ":" + c["op"], key=(c["op"], c["in"], tuple(c.get("known") or [])),
                  trivial=len(data) == 0)
         bad = impl_oracle(c)
         if bad:
-            ck.violation("impl:%s:%s" % (bad[0], c["op"]), bad[1],
-                         {"case": J.slim(c), "expected": "returns within the deadline, without panic, with a result "
-                                                         "or at least one error; truncated input rejected",
-                          "observed": c["obs"]})
+            key = "impl:%s:%s" % (bad[0], c["op"])
+            rep = {"case": J.slim(c), "expected": "returns within the deadline, without panic, with a result "
+                                                  "or at least one error; truncated input rejected",
+                   "observed": c["obs"]}
+            if key not in shrunk and bad[0] in ("no-return", "panic"):
+                shrunk.add(key)
+                small = J.shrink(ck, c, lambda c2: (impl_oracle(c2) or (None,))[0] == bad[0], budget=40)
+                if small is not c:
+                    rep["minimized_case"] = J.slim(small)
+            ck.violation(key, bad[1], rep)
     for c in cases[:1] + cases[30:31] + cases[400:402] + cases[-2:]:
         ck.sample(J.slim(c))
 
